@@ -1530,6 +1530,32 @@ where M: Manager<Terminal = BDDTerminal> + HasApplyCache<M, BDDOp>, M::InnerNode
     ensures res is Ok ==> pick_ok(edge.view(), literal_set.view(), res->Ok_0.view()) && ok(res->Ok_0.view(), manager.num_levels_spec()),
     decreases edge.view(),
 //@end
+//@fn file=crates/oxidd-rules-bdd/src/simple/apply_rec.rs path=impl:BooleanFunction~for~BDDFunction<F>/fn:pick_cube_edge hoist=inner>pick_cube_edge__inner ret=r props=C13
+//@header
+fn pick_cube_edge<M>(manager: &M, edge: &M::Edge, choice: impl FnMut(&M, &M::Edge, LevelNo) -> bool) -> (r: Option<Vec<OptBool>>)
+where M: Manager<Terminal = BDDTerminal> + HasApplyCache<M, BDDOp>, M::InnerNode: HasLevel,
+//@spec
+    requires edge_ok::<M::Edge>(), ok(edge.view(), manager.num_levels_spec()),
+        forall|l: int| 0 <= l < manager.num_levels_spec() ==> 0 <= #[trigger] manager.level_to_var_spec(l) < manager.num_levels_spec() && manager.var_to_level_spec(manager.level_to_var_spec(l)) == l,
+        forall|mm: &M, ee: &M::Edge, l: LevelNo| (ee.view() matches Tree::Inner(k, a, b) && k == l && *a != ff() && *b != ff()) ==> #[trigger] choice.requires((mm, ee, l)),
+    // nothing exactly for the false function; otherwise a vector (one entry per variable) whose literals imply the function
+    ensures (r is None) == (edge.view() == ff()),
+        r is Some ==> r->Some_0@.len() == manager.num_levels_spec()
+            && forall|env: Env| cube_allows(manager, r->Some_0@, env, 0) ==> #[trigger] sem(edge.view(), env),
+//@end
+//@fn file=crates/oxidd-rules-bdd/src/simple/apply_rec.rs path=mod:mt/impl:BooleanFunction~for~BDDFunctionMT<F>/fn:pick_cube_edge name=pick_cube_edge__mt props=C13 ret=r subst_text=BDDFunction::<F>::::=
+//@header
+fn pick_cube_edge__mt<M>(manager: &M, edge: &M::Edge, choice: impl FnMut(&M, &M::Edge, LevelNo) -> bool) -> (r: Option<Vec<OptBool>>)
+where M: Manager<Terminal = BDDTerminal> + HasApplyCache<M, BDDOp>, M::InnerNode: HasLevel,
+//@spec
+    requires edge_ok::<M::Edge>(), ok(edge.view(), manager.num_levels_spec()),
+        forall|l: int| 0 <= l < manager.num_levels_spec() ==> 0 <= #[trigger] manager.level_to_var_spec(l) < manager.num_levels_spec() && manager.var_to_level_spec(manager.level_to_var_spec(l)) == l,
+        forall|mm: &M, ee: &M::Edge, l: LevelNo| (ee.view() matches Tree::Inner(k, a, b) && k == l && *a != ff() && *b != ff()) ==> #[trigger] choice.requires((mm, ee, l)),
+    // nothing exactly for the false function; otherwise a vector (one entry per variable) whose literals imply the function
+    ensures (r is None) == (edge.view() == ff()),
+        r is Some ==> r->Some_0@.len() == manager.num_levels_spec()
+            && forall|env: Env| cube_allows(manager, r->Some_0@, env, 0) ==> #[trigger] sem(edge.view(), env),
+//@end
 //@fn file=crates/oxidd-rules-bdd/src/simple/apply_rec.rs path=impl:BooleanFunction~for~BDDFunction<F>/fn:pick_cube_dd_edge hoist=inner>pick_cube_dd_edge__inner props=C13
 //@header
 fn pick_cube_dd_edge<M>(manager: &M, edge: &M::Edge, choice: impl FnMut(&M, &M::Edge, LevelNo) -> bool) -> (res: AllocResult<M::Edge>)
